@@ -481,9 +481,10 @@ class ExcelCompiler:
             for child_cell in self.dep_graph.successors(cell):
                 if child_cell.value is not None:
                     self._reset(child_cell)
-                elif isinstance(child_cell, _CellRange):
+                elif child_cell.address.is_range:
                     # a range may not have been evaluated while formulas that
-                    # intersect it (and so read only one of its cells) were
+                    # intersect it (and so read only one of its cells) were,
+                    # or which had a result stored in the workbook
                     self._reset(child_cell, force=True)
 
     def value_tree_str(self, address, indent=0):
